@@ -990,9 +990,11 @@ fn resolve_text_macro_usage<T: AsRef<Path>, U: AsRef<Path>>(
     }
 
     let mut args_str = String::from("");
+    let mut args_offset = 0;
     let mut actual_args = Vec::new();
     let no_args = args.is_none();
     if let Some(args) = args {
+        args_offset = args.nodes.0.nodes.0.offset;
         args_str.push_str(&get_str((&args.nodes.0).into(), s));
         args_str.push_str(&get_str((&args.nodes.1).into(), s));
         args_str.push_str(&get_str((&args.nodes.2).into(), s));
@@ -1084,12 +1086,54 @@ fn resolve_text_macro_usage<T: AsRef<Path>, U: AsRef<Path>>(
                 new_defines,
             )))
         } else {
-            Ok(None)
+            // A macro without body expands to nothing, but a parenthesised group after
+            // a macro without arguments is not an argument list: it is text and stays.
+            resolve_trailing_paren(
+                paren, args_offset, path, defines, include_paths, strip_comments,
+                resolve_depth, include_depth,
+            )
         }
     } else if define.is_some() {
-        Ok(None)
+        // a name supplied without definition has no arguments either
+        resolve_trailing_paren(
+            Some(args_str), args_offset, path, defines, include_paths, strip_comments,
+            resolve_depth, include_depth,
+        )
     } else {
         Err(Error::DefineNotFound(id))
+    }
+}
+
+fn resolve_trailing_paren<T: AsRef<Path>, U: AsRef<Path>>(
+    paren: Option<String>,
+    offset: usize,
+    path: T,
+    defines: &Defines,
+    include_paths: &[U],
+    strip_comments: bool,
+    resolve_depth: usize,
+    include_depth: usize,
+) -> Result<Option<(String, Option<(PathBuf, Range)>, Defines)>, Error> {
+    match paren {
+        Some(paren) if !paren.is_empty() => {
+            let (replaced, new_defines) = preprocess_str(
+                &paren,
+                path.as_ref(),
+                &defines,
+                include_paths,
+                false,
+                strip_comments,
+                resolve_depth,
+                include_depth,
+            )?;
+            let range = Range::new(offset, offset + paren.len());
+            Ok(Some((
+                String::from(replaced.text()),
+                Some((PathBuf::from(path.as_ref()), range)),
+                new_defines,
+            )))
+        }
+        _ => Ok(None),
     }
 }
 
